@@ -3,6 +3,11 @@
 //! point, join, cap, width, miter limit, tolerance, fixed and variable width, on structured
 //! (degenerate) and random paths.  Each run is decided directly here and by the Coq oracle
 //! (Checker/StrokeSpec.v, exact arithmetic).
+//! `shape_helper_checks`: the shape helpers of the stroke builder (add_rectangle / add_circle / add_ellipse /
+//! add_rounded_rectangle / add_polygon / add_line_segment / add_point, both windings, with and without attributes,
+//! fixed and variable width) against the same helpers on a Path builder, against tessellate_rectangle / circle /
+//! ellipse, and against the region the stroke of the shape should cover.  `empty_cap_checks`: sub-paths without
+//! extent through every entry point (direct checks only; no Coq case is written for these two).
 use crate::c07::{sample, seg_dist, tables_from_path, tables_sequential, EdgeGeom, Tables};
 use crate::tess::*;
 use crate::util::*;
@@ -304,6 +309,144 @@ pub(crate) fn turn_cross_at(spec: &PathSpec, p: Point) -> Option<f32> {
     None
 }
 
+/// what `check_stroke_mesh` measured on the way (the Coq case of the run is written from these)
+pub(crate) struct MeshFacts {
+    pub bad: bool,
+    pub segs: Vec<((f64, f64), (f64, f64))>,
+    pub hw_max: f64,
+    pub scale: f64,
+    pub ulp: f64,
+}
+
+/// The per-triangle and per-vertex clauses of C05 on one recorded stroke of `spec`: distinct valid triangle
+/// ids; finite values; non-negative advancement; position == position_on_path + normal * half_width; the
+/// width asked for (fixed width) or the width attribute `width_attr` at the source (variable width); within
+/// the join / cap reach of the input; a source naming an endpoint / edge of `tables`, with position_on_path
+/// where the source says.
+pub(crate) fn check_stroke_mesh(st: &mut Stats, cfg: &StrokeCfg, spec: &PathSpec, tables: &Tables, rate: f64, width_attr: usize, rec: &StrokeRec, label: &str) -> MeshFacts {
+    let segs = input_segments(spec);
+    let hw_max = if cfg.var_width { rec.verts.iter().map(|v| v.width as f64 * 0.5).fold(0.0, f64::max) } else { cfg.width as f64 * 0.5 };
+    let scale: f64 = segs.iter().flat_map(|(a, b)| [a.0.abs(), a.1.abs(), b.0.abs(), b.1.abs()]).fold(1.0, f64::max);
+    let ulp = scale * 2.4e-7;
+    let mut bad = false;
+    for t in &rec.tris {
+        if t[0] == t[1] || t[1] == t[2] || t[0] == t[2] {
+            st.fail(jobj(&[("what", jstr("a stroke triangle repeats a vertex id")), ("input", jstr(&format!("{:?} :: {}", t, label)))]));
+            bad = true;
+        }
+        if t.iter().any(|i| *i as usize >= rec.verts.len()) {
+            st.fail(jobj(&[("what", jstr("a stroke triangle uses an id that was never returned")), ("input", jstr(&format!("{:?} :: {}", t, label)))]));
+            bad = true;
+        }
+    }
+    let mut worst_reach = 0.0f64;
+    for (vi, v) in rec.verts.iter().enumerate() {
+        let vl = || format!("vertex {} {:?} :: {}", vi, v, label);
+        if !(v.pos.x.is_finite() && v.pos.y.is_finite() && v.on_path.x.is_finite() && v.on_path.y.is_finite() && v.normal.x.is_finite() && v.normal.y.is_finite() && v.width.is_finite() && v.adv.is_finite()) {
+            st.fail(jobj(&[("what", jstr("a stroke vertex carries a non-finite value")), ("input", jstr(&vl()))]));
+            bad = true;
+            continue;
+        }
+        if v.adv < 0.0 {
+            st.fail(jobj(&[("what", jstr("negative advancement")), ("input", jstr(&vl()))]));
+            bad = true;
+        }
+        // position = position_on_path + normal * half_width, as f32
+        let want = v.on_path + v.normal * (v.width * 0.5);
+        if want != v.pos {
+            st.fail(jobj(&[("what", jstr("position is not position_on_path + normal * half_width")), ("input", jstr(&vl()))]));
+            bad = true;
+        }
+        if !cfg.var_width && v.width != cfg.width {
+            st.fail(jobj(&[("what", jstr("line_width is not the width asked for")), ("input", jstr(&vl()))]));
+            bad = true;
+        }
+        // within reach of the path
+        let p = (v.pos.x as f64, v.pos.y as f64);
+        let d = segs.iter().map(|(a, b)| seg_dist(p, *a, *b)).fold(f64::MAX, f64::min);
+        let hw = v.width as f64 * 0.5;
+        let allowed = cfg.reach(rate) * hw.max(hw_max) + cfg.tol as f64 + 4.0 * ulp + 1e-4 * hw;
+        if !segs.is_empty() {
+            worst_reach = worst_reach.max((d - cfg.tol as f64 - 4.0 * ulp) / hw.max(1e-9));
+            if d > allowed {
+                let mut f = vec![("what", jstr("a stroke vertex is farther from the path than the join / cap reach")), ("input", jstr(&format!("distance {:.5} allowed {:.5} :: {}", d, allowed, vl())))];
+                // K13: on a tight curve, or at a join where the path doubles back (within 3 degrees of a half turn);
+                // sharp but definite turns of a polyline are handled by the fold test of the join code and are in scope
+                if cfg.var_width && sharp_turn_or_curve_at(spec, v.on_path) && turn_cross_at(spec, v.on_path).map_or(true, |c| c.abs() < 0.05) {
+                    f.push(("class", jstr("K13")));
+                }
+                st.fail(jobj(&f));
+                bad = true;
+            }
+        }
+        // variable width: the width at a vertex is the line width times the (interpolated) first attribute at its source
+        if cfg.var_width {
+            let a0 = |id: u32| tables.endpoints.get(&id).and_then(|e| e.1.get(width_attr).copied());
+            let want = match v.src {
+                VertexSource::Endpoint { id } => a0(id.0),
+                VertexSource::Edge { from, to, t } => match (a0(from.0), a0(to.0)) {
+                    (Some(a), Some(b)) => Some(a * (1.0 - t) + b * t),
+                    _ => None,
+                },
+            };
+            if let Some(wf) = want {
+                let want_w = cfg.width * wf;
+                if (v.width - want_w).abs() > 1e-4 * want_w.abs().max(1e-3) {
+                    st.fail(jobj(&[("what", jstr("line_width at a vertex is not the line width times the width attribute at its source")), ("input", jstr(&format!("expected {} :: {}", want_w, vl())))]));
+                    bad = true;
+                }
+            }
+        }
+        // the source names an endpoint or an edge of the input, and position_on_path is where it says
+        let q = (v.on_path.x as f64, v.on_path.y as f64);
+        let slack = cfg.tol as f64 + 8.0 * ulp;
+        match v.src {
+            VertexSource::Endpoint { id } => match tables.endpoints.get(&id.0) {
+                None => {
+                    st.fail(jobj(&[("what", jstr("a stroke vertex's source names an id that is not an endpoint of the input")), ("input", jstr(&vl()))]));
+                    bad = true;
+                }
+                Some((e, _)) => {
+                    if (e.x as f64 - q.0).hypot(e.y as f64 - q.1) > slack {
+                        st.fail(jobj(&[("what", jstr("position_on_path is not at the endpoint named by the source")), ("input", jstr(&vl()))]));
+                        bad = true;
+                    }
+                }
+            },
+            VertexSource::Edge { from, to, t } => {
+                let by_pos = || -> Option<&EdgeGeom> {
+                    let (pf, pt) = (tables.endpoints.get(&from.0)?.0, tables.endpoints.get(&to.0)?.0);
+                    tables.edges.values().flatten().find(|g| match g {
+                        EdgeGeom::Line(a, b) => *a == pf && *b == pt,
+                        EdgeGeom::Quad(a, _, b) => *a == pf && *b == pt,
+                        EdgeGeom::Cubic(a, _, _, b) => *a == pf && *b == pt,
+                    })
+                };
+                match tables.edges.get(&(from.0, to.0)).and_then(|v| v.first()).or_else(by_pos) {
+                    None => {
+                        st.fail(jobj(&[("what", jstr("a stroke vertex's source names a pair of ids that is not an edge of the input")), ("input", jstr(&vl()))]));
+                        bad = true;
+                    }
+                    Some(g) => {
+                        if !(t >= 0.0 && t <= 1.0) {
+                            st.fail(jobj(&[("what", jstr("a stroke vertex's edge source has a parameter outside [0,1]")), ("input", jstr(&vl()))]));
+                            bad = true;
+                        } else {
+                            let s = sample(g, t as f64);
+                            if (s.0 - q.0).hypot(s.1 - q.1) > slack {
+                                st.fail(jobj(&[("what", jstr("position_on_path is not at the parameter named by the source")), ("input", jstr(&format!("off by {:.5} :: {}", (s.0 - q.0).hypot(s.1 - q.1), vl())))]));
+                                bad = true;
+                            }
+                        }
+                    }
+                }
+            }
+        }
+    }
+    let _ = worst_reach;
+    MeshFacts { bad, segs, hw_max, scale, ulp }
+}
+
 fn structured(k: u64, r: &mut Rng) -> PathSpec {
     let pl = |pts: Vec<(f32, f32)>, close: bool| PathSpec::from_polylines(&[pts], &[close]);
     match k % 12 {
@@ -420,127 +563,9 @@ pub fn main(args: &Args) -> std::io::Result<()> {
         }
         st.add("vertices", rec.verts.len() as u64);
         st.add("triangles", rec.tris.len() as u64);
-        let segs = input_segments(&spec);
-        let hw_max = if cfg.var_width { rec.verts.iter().map(|v| v.width as f64 * 0.5).fold(0.0, f64::max) } else { cfg.width as f64 * 0.5 };
-        let scale: f64 = segs.iter().flat_map(|(a, b)| [a.0.abs(), a.1.abs(), b.0.abs(), b.1.abs()]).fold(1.0, f64::max);
-        let ulp = scale * 2.4e-7;
-        let mut bad = false;
-        for t in &rec.tris {
-            if t[0] == t[1] || t[1] == t[2] || t[0] == t[2] {
-                st.fail(jobj(&[("what", jstr("a stroke triangle repeats a vertex id")), ("input", jstr(&format!("{:?} :: {}", t, label)))]));
-                bad = true;
-            }
-            if t.iter().any(|i| *i as usize >= rec.verts.len()) {
-                st.fail(jobj(&[("what", jstr("a stroke triangle uses an id that was never returned")), ("input", jstr(&format!("{:?} :: {}", t, label)))]));
-                bad = true;
-            }
-        }
-        let mut worst_reach = 0.0f64;
-        for (vi, v) in rec.verts.iter().enumerate() {
-            let vl = || format!("vertex {} {:?} :: {}", vi, v, label);
-            if !(v.pos.x.is_finite() && v.pos.y.is_finite() && v.on_path.x.is_finite() && v.on_path.y.is_finite() && v.normal.x.is_finite() && v.normal.y.is_finite() && v.width.is_finite() && v.adv.is_finite()) {
-                st.fail(jobj(&[("what", jstr("a stroke vertex carries a non-finite value")), ("input", jstr(&vl()))]));
-                bad = true;
-                continue;
-            }
-            if v.adv < 0.0 {
-                st.fail(jobj(&[("what", jstr("negative advancement")), ("input", jstr(&vl()))]));
-                bad = true;
-            }
-            // position = position_on_path + normal * half_width, as f32
-            let want = v.on_path + v.normal * (v.width * 0.5);
-            if want != v.pos {
-                st.fail(jobj(&[("what", jstr("position is not position_on_path + normal * half_width")), ("input", jstr(&vl()))]));
-                bad = true;
-            }
-            if !cfg.var_width && v.width != cfg.width {
-                st.fail(jobj(&[("what", jstr("line_width is not the width asked for")), ("input", jstr(&vl()))]));
-                bad = true;
-            }
-            // within reach of the path
-            let p = (v.pos.x as f64, v.pos.y as f64);
-            let d = segs.iter().map(|(a, b)| seg_dist(p, *a, *b)).fold(f64::MAX, f64::min);
-            let hw = v.width as f64 * 0.5;
-            let allowed = cfg.reach(rate) * hw.max(hw_max) + cfg.tol as f64 + 4.0 * ulp + 1e-4 * hw;
-            if !segs.is_empty() {
-                worst_reach = worst_reach.max((d - cfg.tol as f64 - 4.0 * ulp) / hw.max(1e-9));
-                if d > allowed {
-                    let mut f = vec![("what", jstr("a stroke vertex is farther from the path than the join / cap reach")), ("input", jstr(&format!("distance {:.5} allowed {:.5} :: {}", d, allowed, vl())))];
-                    // K13: on a tight curve, or at a join where the path doubles back (within 3 degrees of a half turn);
-                    // sharp but definite turns of a polyline are handled by the fold test of the join code and are in scope
-                    if cfg.var_width && sharp_turn_or_curve_at(&spec, v.on_path) && turn_cross_at(&spec, v.on_path).map_or(true, |c| c.abs() < 0.05) {
-                        f.push(("class", jstr("K13")));
-                    }
-                    st.fail(jobj(&f));
-                    bad = true;
-                }
-            }
-            // variable width: the width at a vertex is the line width times the (interpolated) first attribute at its source
-            if cfg.var_width {
-                let a0 = |id: u32| tables.endpoints.get(&id).and_then(|e| e.1.first().copied());
-                let want = match v.src {
-                    VertexSource::Endpoint { id } => a0(id.0),
-                    VertexSource::Edge { from, to, t } => match (a0(from.0), a0(to.0)) {
-                        (Some(a), Some(b)) => Some(a * (1.0 - t) + b * t),
-                        _ => None,
-                    },
-                };
-                if let Some(wf) = want {
-                    let want_w = cfg.width * wf;
-                    if (v.width - want_w).abs() > 1e-4 * want_w.abs().max(1e-3) {
-                        st.fail(jobj(&[("what", jstr("line_width at a vertex is not the line width times the width attribute at its source")), ("input", jstr(&format!("expected {} :: {}", want_w, vl())))]));
-                        bad = true;
-                    }
-                }
-            }
-            // the source names an endpoint or an edge of the input, and position_on_path is where it says
-            let q = (v.on_path.x as f64, v.on_path.y as f64);
-            let slack = cfg.tol as f64 + 8.0 * ulp;
-            match v.src {
-                VertexSource::Endpoint { id } => match tables.endpoints.get(&id.0) {
-                    None => {
-                        st.fail(jobj(&[("what", jstr("a stroke vertex's source names an id that is not an endpoint of the input")), ("input", jstr(&vl()))]));
-                        bad = true;
-                    }
-                    Some((e, _)) => {
-                        if (e.x as f64 - q.0).hypot(e.y as f64 - q.1) > slack {
-                            st.fail(jobj(&[("what", jstr("position_on_path is not at the endpoint named by the source")), ("input", jstr(&vl()))]));
-                            bad = true;
-                        }
-                    }
-                },
-                VertexSource::Edge { from, to, t } => {
-                    let by_pos = || -> Option<&EdgeGeom> {
-                        let (pf, pt) = (tables.endpoints.get(&from.0)?.0, tables.endpoints.get(&to.0)?.0);
-                        tables.edges.values().flatten().find(|g| match g {
-                            EdgeGeom::Line(a, b) => *a == pf && *b == pt,
-                            EdgeGeom::Quad(a, _, b) => *a == pf && *b == pt,
-                            EdgeGeom::Cubic(a, _, _, b) => *a == pf && *b == pt,
-                        })
-                    };
-                    match tables.edges.get(&(from.0, to.0)).and_then(|v| v.first()).or_else(by_pos) {
-                        None => {
-                            st.fail(jobj(&[("what", jstr("a stroke vertex's source names a pair of ids that is not an edge of the input")), ("input", jstr(&vl()))]));
-                            bad = true;
-                        }
-                        Some(g) => {
-                            if !(t >= 0.0 && t <= 1.0) {
-                                st.fail(jobj(&[("what", jstr("a stroke vertex's edge source has a parameter outside [0,1]")), ("input", jstr(&vl()))]));
-                                bad = true;
-                            } else {
-                                let s = sample(g, t as f64);
-                                if (s.0 - q.0).hypot(s.1 - q.1) > slack {
-                                    st.fail(jobj(&[("what", jstr("position_on_path is not at the parameter named by the source")), ("input", jstr(&format!("off by {:.5} :: {}", (s.0 - q.0).hypot(s.1 - q.1), vl())))]));
-                                    bad = true;
-                                }
-                            }
-                        }
-                    }
-                }
-            }
-        }
+        let facts = check_stroke_mesh(&mut st, &cfg, &spec, &tables, rate, 0, &rec, &label);
+        let (bad, segs, hw_max, scale, ulp) = (facts.bad, facts.segs, facts.hw_max, facts.scale, facts.ulp);
         st.add("reach_x1000_max", 0);
-        let _ = worst_reach;
         if !bad && id < coq_cap && rec.verts.len() <= 60 && !rec.verts.is_empty() && scale < 1e4 && cfg.reach(rate).is_finite() {
             // the Coq oracle: exact arithmetic on the recorded vertices against the flattened input
             let segs_q = glist(segs.iter().map(|(a, b)| format!("(({}, {}), ({}, {}))", gq64(a.0), gq64(a.1), gq64(b.0), gq64(b.1))));
@@ -582,6 +607,8 @@ pub fn main(args: &Args) -> std::io::Result<()> {
             glist(got.iter().map(|t| format!("({}, {}, {})%Z", t[0], t[1], t[2])))
         ));
     }
+    shape_helper_checks(args, &mut st);
+    empty_cap_checks(args, &mut st);
     clear_breadcrumb(&args.out);
     w.finish()?;
     // K12 accounts for non-finite output on a small part of its domain (at most 1 % of the inputs with rate >= 1, measured
@@ -594,4 +621,1307 @@ pub fn main(args: &Args) -> std::io::Result<()> {
         ]));
     }
     st.write(&args.out.join("c05_stats.json"))
+}
+
+// ===================================================================================================
+// The shape helpers of the stroke builder (add_rectangle / add_circle / add_ellipse / add_rounded_rectangle /
+// add_polygon / add_line_segment / add_point through `StrokeTessellator::builder` and
+// `builder_with_attributes`, both windings, fixed and variable width), the same helpers on a `Path` builder
+// followed by tessellate_path / tessellate_with_ids / tessellate, and tessellate_rectangle / circle / ellipse.
+// ===================================================================================================
+
+mod shapes {
+    use super::*;
+    use lyon_path::builder::{BorderRadii, NoAttributes};
+    use lyon_path::geom::LineSegment;
+    use lyon_path::math::{vector, Angle, Box2D};
+    use lyon_path::traits::{Build, PathBuilder};
+    use lyon_path::{Attributes, EndpointId, Path, Polygon, Winding};
+
+    pub(super) type P2 = (f64, f64);
+
+    #[derive(Clone, Debug)]
+    pub(super) enum ShapeK {
+        Rect(Box2D),
+        Circle(Point, f32),
+        Ellipse(Point, f32, f32, f32),
+        /// radii: top left, top right, bottom left, bottom right
+        RoundRect(Box2D, [f32; 4]),
+        Polygon(Vec<Point>, bool),
+        Segment(Point, Point),
+        /// add_point: begin; end(false)
+        PointOpen(Point),
+        /// begin a; line_to b; end(true)
+        PairClosed(Point, Point),
+    }
+
+    impl ShapeK {
+        pub fn name(&self) -> &'static str {
+            match self {
+                ShapeK::Rect(..) => "add_rectangle",
+                ShapeK::Circle(..) => "add_circle",
+                ShapeK::Ellipse(..) => "add_ellipse",
+                ShapeK::RoundRect(..) => "add_rounded_rectangle",
+                ShapeK::Polygon(..) => "add_polygon",
+                ShapeK::Segment(..) => "add_line_segment",
+                ShapeK::PointOpen(..) => "add_point",
+                ShapeK::PairClosed(..) => "closed_pair",
+            }
+        }
+    }
+
+    fn oriented(pts: &[Point], w: Winding) -> Vec<Point> {
+        let mut v = pts.to_vec();
+        if w == Winding::Negative {
+            v.reverse();
+        }
+        v
+    }
+
+    /// the helper through the attribute-carrying `PathBuilder` trait methods
+    pub(super) fn apply_attr<B: PathBuilder>(b: &mut B, s: &ShapeK, w: Winding, a: Attributes) {
+        match s {
+            ShapeK::Rect(r) => b.add_rectangle(r, w, a),
+            ShapeK::Circle(c, r) => b.add_circle(*c, *r, w, a),
+            ShapeK::Ellipse(c, rx, ry, rot) => b.add_ellipse(*c, vector(*rx, *ry), Angle::radians(*rot), w, a),
+            ShapeK::RoundRect(r, q) => b.add_rounded_rectangle(r, &BorderRadii { top_left: q[0], top_right: q[1], bottom_left: q[2], bottom_right: q[3] }, w, a),
+            ShapeK::Polygon(pts, closed) => b.add_polygon(Polygon { points: &oriented(pts, w), closed: *closed }, a),
+            ShapeK::Segment(p, q) => {
+                let v = oriented(&[*p, *q], w);
+                b.add_line_segment(&LineSegment { from: v[0], to: v[1] }, a);
+            }
+            ShapeK::PointOpen(p) => {
+                b.add_point(*p, a);
+            }
+            ShapeK::PairClosed(p, q) => {
+                let v = oriented(&[*p, *q], w);
+                b.begin(v[0], a);
+                b.line_to(v[1], a);
+                b.end(true);
+            }
+        }
+    }
+
+    /// the helper through the inherent methods of the `NoAttributes` wrapper
+    pub(super) fn apply_noattr<B: PathBuilder>(b: &mut NoAttributes<B>, s: &ShapeK, w: Winding) {
+        match s {
+            ShapeK::Rect(r) => b.add_rectangle(r, w),
+            ShapeK::Circle(c, r) => b.add_circle(*c, *r, w),
+            ShapeK::Ellipse(c, rx, ry, rot) => b.add_ellipse(*c, vector(*rx, *ry), Angle::radians(*rot), w),
+            ShapeK::RoundRect(r, q) => b.add_rounded_rectangle(r, &BorderRadii { top_left: q[0], top_right: q[1], bottom_left: q[2], bottom_right: q[3] }, w),
+            ShapeK::Polygon(pts, closed) => b.add_polygon(Polygon { points: &oriented(pts, w), closed: *closed }),
+            ShapeK::Segment(p, q) => {
+                let v = oriented(&[*p, *q], w);
+                b.add_line_segment(&LineSegment { from: v[0], to: v[1] });
+            }
+            ShapeK::PointOpen(p) => {
+                b.add_point(*p);
+            }
+            ShapeK::PairClosed(p, q) => {
+                let v = oriented(&[*p, *q], w);
+                b.begin(v[0]);
+                b.line_to(v[1]);
+                b.end(true);
+            }
+        }
+    }
+
+    /// a `PathBuilder` that writes down the commands a helper issues: the input the stroke is a stroke of
+    pub(super) struct SpecRec {
+        pub n_attr: usize,
+        pub subs: Vec<Sub>,
+        next: u32,
+    }
+
+    impl SpecRec {
+        pub fn new(n_attr: usize) -> Self {
+            SpecRec { n_attr, subs: Vec::new(), next: 0 }
+        }
+        fn id(&mut self) -> EndpointId {
+            self.next += 1;
+            EndpointId(self.next - 1)
+        }
+        pub fn spec(self) -> PathSpec {
+            PathSpec { n_attr: self.n_attr, subs: self.subs }
+        }
+    }
+
+    impl PathBuilder for SpecRec {
+        fn num_attributes(&self) -> usize {
+            self.n_attr
+        }
+        fn begin(&mut self, at: Point, a: Attributes) -> EndpointId {
+            self.subs.push(Sub { start: at, start_attrs: a.to_vec(), segs: Vec::new(), close: false });
+            self.id()
+        }
+        fn end(&mut self, close: bool) {
+            if let Some(s) = self.subs.last_mut() {
+                s.close = close;
+            }
+        }
+        fn line_to(&mut self, to: Point, a: Attributes) -> EndpointId {
+            self.subs.last_mut().expect("line_to without begin").segs.push(Seg::Line(to, a.to_vec()));
+            self.id()
+        }
+        fn quadratic_bezier_to(&mut self, ctrl: Point, to: Point, a: Attributes) -> EndpointId {
+            self.subs.last_mut().expect("quadratic_bezier_to without begin").segs.push(Seg::Quad(ctrl, to, a.to_vec()));
+            self.id()
+        }
+        fn cubic_bezier_to(&mut self, c1: Point, c2: Point, to: Point, a: Attributes) -> EndpointId {
+            self.subs.last_mut().expect("cubic_bezier_to without begin").segs.push(Seg::Cubic(c1, c2, to, a.to_vec()));
+            self.id()
+        }
+    }
+
+    #[derive(Clone, Copy, Debug, PartialEq)]
+    pub(super) enum Route {
+        /// tessellator.builder(options, output).add_X(..); build()
+        Builder,
+        /// tessellator.builder_with_attributes(n, options, output).add_X(.., attributes); build()
+        BuilderAttr,
+        /// Path builder .add_X(..); build(); tessellate_path
+        TessellatePath,
+        /// Path builder .add_X(..); build(); tessellate_with_ids
+        WithIds,
+        /// Path builder .add_X(..); build(); tessellate(path.iter())
+        Tessellate,
+        /// tessellate_rectangle / tessellate_circle / tessellate_ellipse
+        Direct,
+    }
+
+    pub(super) struct Run {
+        pub ok: bool,
+        pub rec: StrokeRec,
+        pub path: Option<Path>,
+    }
+
+    /// None: panicked
+    pub(super) fn run_shape(route: Route, s: &ShapeK, w: Winding, n_attr: usize, attrs: &[f32], o: &StrokeOptions) -> Option<Run> {
+        let mut rec = StrokeRec::default();
+        let mut path_out: Option<Path> = None;
+        let ok = catch(AssertUnwindSafe(|| {
+            let mut tess = StrokeTessellator::new();
+            match route {
+                Route::Builder => {
+                    let mut b = tess.builder(o, &mut rec);
+                    apply_noattr(&mut b, s, w);
+                    b.build().is_ok()
+                }
+                Route::BuilderAttr => {
+                    let mut b = tess.builder_with_attributes(n_attr, o, &mut rec);
+                    apply_attr(&mut b, s, w, attrs);
+                    b.build().is_ok()
+                }
+                Route::TessellatePath | Route::WithIds | Route::Tessellate => {
+                    let path: Path = if n_attr == 0 {
+                        let mut pb = Path::builder();
+                        apply_noattr(&mut pb, s, w);
+                        pb.build()
+                    } else {
+                        let mut pb = Path::builder_with_attributes(n_attr);
+                        apply_attr(&mut pb, s, w, attrs);
+                        pb.build()
+                    };
+                    let r = match route {
+                        Route::TessellatePath => tess.tessellate_path(&path, o, &mut rec),
+                        Route::WithIds => {
+                            if n_attr > 0 {
+                                tess.tessellate_with_ids(path.id_iter(), &path, Some(&path), o, &mut rec)
+                            } else {
+                                tess.tessellate_with_ids(path.id_iter(), &path, None, o, &mut rec)
+                            }
+                        }
+                        _ => tess.tessellate(path.iter(), o, &mut rec),
+                    };
+                    path_out = Some(path);
+                    r.is_ok()
+                }
+                Route::Direct => match s {
+                    ShapeK::Rect(b) => tess.tessellate_rectangle(b, o, &mut rec).is_ok(),
+                    ShapeK::Circle(c, r) => tess.tessellate_circle(*c, *r, o, &mut rec).is_ok(),
+                    ShapeK::Ellipse(c, rx, ry, rot) => tess.tessellate_ellipse(*c, vector(*rx, *ry), Angle::radians(*rot), w, o, &mut rec).is_ok(),
+                    _ => unreachable!(),
+                },
+            }
+        }))?;
+        Some(Run { ok, rec, path: path_out })
+    }
+
+    // ------------------------------------------------------------------------------ ideal regions
+
+    pub(super) fn pf(p: Point) -> P2 {
+        (p.x as f64, p.y as f64)
+    }
+
+    /// straight pieces and circular arcs (centre, radius, start angle, end angle > start, at most a full turn)
+    #[derive(Clone, Debug, Default)]
+    pub(super) struct Outline {
+        pub segs: Vec<(P2, P2)>,
+        pub arcs: Vec<(P2, f64, f64, f64)>,
+    }
+
+    impl Outline {
+        pub fn dist(&self, p: P2) -> f64 {
+            let mut d = f64::INFINITY;
+            for (a, b) in &self.segs {
+                d = d.min(seg_dist(p, *a, *b));
+            }
+            for (c, r, a0, a1) in &self.arcs {
+                let (vx, vy) = (p.0 - c.0, p.1 - c.1);
+                let tau = 2.0 * std::f64::consts::PI;
+                let mut th = vy.atan2(vx) - a0;
+                th -= (th / tau).floor() * tau;
+                if th <= a1 - a0 {
+                    d = d.min((vx.hypot(vy) - r).abs());
+                } else {
+                    for a in [a0, a1] {
+                        d = d.min((p.0 - c.0 - r * a.cos()).hypot(p.1 - c.1 - r * a.sin()));
+                    }
+                }
+            }
+            d
+        }
+        pub fn bounds(&self) -> (P2, P2) {
+            let (mut lo, mut hi) = ((f64::INFINITY, f64::INFINITY), (f64::NEG_INFINITY, f64::NEG_INFINITY));
+            let mut add = |p: P2| {
+                lo = (lo.0.min(p.0), lo.1.min(p.1));
+                hi = (hi.0.max(p.0), hi.1.max(p.1));
+            };
+            for (a, b) in &self.segs {
+                add(*a);
+                add(*b);
+            }
+            for (c, r, _, _) in &self.arcs {
+                add((c.0 - r, c.1 - r));
+                add((c.0 + r, c.1 + r));
+            }
+            (lo, hi)
+        }
+    }
+
+    /// what a join does in the quadrant diagonally outside a right-angled corner of the outline; in the
+    /// corner's own coordinates (dx, dy >= 0 away from the shape) the stroke covers, of the square of side
+    /// half-width:
+    #[derive(Clone, Copy, Debug, PartialEq)]
+    pub(super) enum CornerMode {
+        /// the quarter disc (round joins)
+        Round,
+        /// unspecified (the helper documents an approximation there)
+        DontCare,
+        /// dx + dy <= c with c >= sqrt 2 half-widths: the quarter disc and more (miter, clipped miter)
+        Superset(f64),
+        /// dx + dy <= half-width: the bevel triangle
+        Bevel,
+    }
+
+    #[derive(Clone, Debug)]
+    pub(super) enum Ideal {
+        /// no triangle covers anything
+        Nothing,
+        /// the points within `hw` of `outline`: those within hw - d_in must be covered (d_in infinite: no such
+        /// demand), those farther than k * hw + d_out must not; right-angled corners as `mode` says
+        Stroke { outline: Outline, hw: f64, d_in: f64, d_out: f64, k: f64, corners: Vec<(P2, P2)>, mode: CornerMode },
+        /// the box of half-height hw around a..b, extended by ext_* beyond a / b, with a half disc where round_*;
+        /// `inner` is what must be covered, `outer` what may be
+        Seg { a: P2, b: P2, hw: f64, inner: (f64, f64, bool, bool), outer: (f64, f64, bool, bool), delta: f64 },
+        /// axis-aligned square of half-side hw
+        Square { c: P2, hw: f64, delta: f64 },
+        Disc { c: P2, hw: f64, delta: f64 },
+    }
+
+    impl Ideal {
+        /// Some(true): must be covered; Some(false): must not be covered; None: too close to the boundary of
+        /// the ideal region (or in a part that is not specified) to say
+        pub fn classify(&self, p: P2) -> Option<bool> {
+            match self {
+                Ideal::Nothing => Some(false),
+                Ideal::Square { c, hw, delta } => {
+                    let m = hw - (p.0 - c.0).abs().max((p.1 - c.1).abs());
+                    if m >= *delta {
+                        Some(true)
+                    } else if m <= -*delta {
+                        Some(false)
+                    } else {
+                        None
+                    }
+                }
+                Ideal::Disc { c, hw, delta } => {
+                    let m = hw - (p.0 - c.0).hypot(p.1 - c.1);
+                    if m >= *delta {
+                        Some(true)
+                    } else if m <= -*delta {
+                        Some(false)
+                    } else {
+                        None
+                    }
+                }
+                Ideal::Seg { a, b, hw, inner, outer, delta } => {
+                    let l = (b.0 - a.0).hypot(b.1 - a.1);
+                    let u = ((b.0 - a.0) / l, (b.1 - a.1) / l);
+                    let t = (p.0 - a.0) * u.0 + (p.1 - a.1) * u.1;
+                    let n = -(p.0 - a.0) * u.1 + (p.1 - a.1) * u.0;
+                    // a round cap is the half disc beyond the end: before a round end only the sides bound the region
+                    let depth = |e: &(f64, f64, bool, bool)| -> f64 {
+                        let ca = if e.2 { if t < 0.0 { hw - (p.0 - a.0).hypot(p.1 - a.1) } else { f64::INFINITY } } else { t + e.0 };
+                        let cb = if e.3 { if t > l { hw - (p.0 - b.0).hypot(p.1 - b.1) } else { f64::INFINITY } } else { l + e.1 - t };
+                        (hw - n.abs()).min(ca).min(cb)
+                    };
+                    if depth(inner) >= *delta {
+                        Some(true)
+                    } else if depth(outer) <= -*delta {
+                        Some(false)
+                    } else {
+                        None
+                    }
+                }
+                Ideal::Stroke { outline, hw, d_in, d_out, k, corners, mode } => {
+                    let d = outline.dist(p);
+                    let local = |c: &(P2, P2)| ((p.0 - c.0 .0) * c.1 .0, (p.1 - c.0 .1) * c.1 .1);
+                    let s2 = std::f64::consts::SQRT_2;
+                    match mode {
+                        CornerMode::Round => {}
+                        CornerMode::DontCare => {
+                            for c in corners {
+                                let (dx, dy) = local(c);
+                                if dx >= -*d_out && dy >= -*d_out && dx <= hw + d_out && dy <= hw + d_out {
+                                    return None;
+                                }
+                            }
+                        }
+                        CornerMode::Superset(c_lim) => {
+                            // the wedge P = [0, hw]^2 with dx + dy <= c_lim comes on top of the round region
+                            let mut far_from_wedges = true;
+                            for c in corners {
+                                let (dx, dy) = local(c);
+                                let depth = dx.min(dy).min(hw - dx).min(hw - dy).min((c_lim - dx - dy) / s2);
+                                if depth >= *d_in {
+                                    return Some(true);
+                                }
+                                let beyond = (-dx).max(-dy).max(dx - hw).max(dy - hw).max((dx + dy - c_lim) / s2);
+                                if beyond < *d_out {
+                                    far_from_wedges = false;
+                                }
+                            }
+                            if d <= hw - d_in {
+                                return Some(true);
+                            }
+                            if d >= k * hw + d_out && far_from_wedges {
+                                return Some(false);
+                            }
+                            return None;
+                        }
+                        CornerMode::Bevel => {
+                            // the whole ideal region lies on the inner side of every bevel line dx + dy = hw
+                            let mut inside_all = true;
+                            for c in corners {
+                                let (dx, dy) = local(c);
+                                let m = (hw - dx - dy) / s2;
+                                if m < *d_in {
+                                    inside_all = false;
+                                }
+                                if m <= -*d_out {
+                                    return Some(false);
+                                }
+                            }
+                            if d <= hw - d_in && inside_all {
+                                return Some(true);
+                            }
+                            if d >= k * hw + d_out {
+                                return Some(false);
+                            }
+                            return None;
+                        }
+                    }
+                    if d <= hw - d_in {
+                        Some(true)
+                    } else if d >= k * hw + d_out {
+                        Some(false)
+                    } else {
+                        None
+                    }
+                }
+            }
+        }
+
+        pub fn bounds(&self) -> Option<(P2, P2)> {
+            match self {
+                Ideal::Nothing => None,
+                Ideal::Square { c, .. } | Ideal::Disc { c, .. } => Some((*c, *c)),
+                Ideal::Seg { a, b, .. } => Some(((a.0.min(b.0), a.1.min(b.1)), (a.0.max(b.0), a.1.max(b.1)))),
+                Ideal::Stroke { outline, .. } => Some(outline.bounds()),
+            }
+        }
+    }
+
+    /// which grid points the triangles cover (closed triangles; zero-area ones cover nothing)
+    pub(super) struct Grid {
+        pub lo: P2,
+        pub step: P2,
+        pub n: usize,
+        pub covered: Vec<bool>,
+    }
+
+    impl Grid {
+        pub fn new(lo: P2, hi: P2, n: usize) -> Grid {
+            // the sample points sit at an odd fraction of the cells so that they avoid the lattice the inputs live on
+            let step = ((hi.0 - lo.0) / n as f64, (hi.1 - lo.1) / n as f64);
+            Grid { lo: (lo.0 + 0.37 * step.0, lo.1 + 0.61 * step.1), step, n, covered: vec![false; n * n] }
+        }
+        pub fn point(&self, i: usize, j: usize) -> P2 {
+            (self.lo.0 + i as f64 * self.step.0, self.lo.1 + j as f64 * self.step.1)
+        }
+        pub fn raster(&mut self, rec: &StrokeRec) {
+            for t in &rec.tris {
+                if t.iter().any(|i| *i as usize >= rec.verts.len()) {
+                    continue;
+                }
+                let q: Vec<P2> = t.iter().map(|i| pf(rec.verts[*i as usize].pos)).collect();
+                if !q.iter().all(|p| p.0.is_finite() && p.1.is_finite()) {
+                    continue;
+                }
+                let area2 = (q[1].0 - q[0].0) * (q[2].1 - q[0].1) - (q[1].1 - q[0].1) * (q[2].0 - q[0].0);
+                if area2.abs() < 1e-12 {
+                    continue;
+                }
+                let sgn = area2.signum();
+                let (x0, x1) = (q[0].0.min(q[1].0).min(q[2].0), q[0].0.max(q[1].0).max(q[2].0));
+                let (y0, y1) = (q[0].1.min(q[1].1).min(q[2].1), q[0].1.max(q[1].1).max(q[2].1));
+                if self.step.0 <= 0.0 || self.step.1 <= 0.0 {
+                    continue;
+                }
+                let idx = |v: f64, lo: f64, st: f64, n: usize, up: bool| -> usize {
+                    let f = (v - lo) / st;
+                    let k = if up { f.floor() + 1.0 } else { f.ceil() - 1.0 };
+                    k.max(0.0).min(n as f64) as usize
+                };
+                let (i0, i1) = (idx(x0, self.lo.0, self.step.0, self.n, false), idx(x1, self.lo.0, self.step.0, self.n, true));
+                let (j0, j1) = (idx(y0, self.lo.1, self.step.1, self.n, false), idx(y1, self.lo.1, self.step.1, self.n, true));
+                for i in i0..i1.min(self.n) {
+                    for j in j0..j1.min(self.n) {
+                        if self.covered[i * self.n + j] {
+                            continue;
+                        }
+                        let p = self.point(i, j);
+                        let mut inside = true;
+                        for e in 0..3 {
+                            let (a, b) = (q[e], q[(e + 1) % 3]);
+                            let cr = ((b.0 - a.0) * (p.1 - a.1) - (b.1 - a.1) * (p.0 - a.0)) * sgn;
+                            if cr < -1e-7 * (b.0 - a.0).hypot(b.1 - a.1) {
+                                inside = false;
+                                break;
+                            }
+                        }
+                        if inside {
+                            self.covered[i * self.n + j] = true;
+                        }
+                    }
+                }
+            }
+        }
+    }
+
+    /// triangles as sorted triples of positions
+    pub(super) fn tri_positions(rec: &StrokeRec) -> Vec<[(f32, f32); 3]> {
+        let mut out: Vec<[(f32, f32); 3]> = rec
+            .tris
+            .iter()
+            .filter(|t| t.iter().all(|i| (*i as usize) < rec.verts.len()))
+            .map(|t| {
+                let mut q = [0, 1, 2].map(|k| {
+                    let p = rec.verts[t[k] as usize].pos;
+                    (p.x, p.y)
+                });
+                q.sort_by(|a, b| a.partial_cmp(b).unwrap_or(std::cmp::Ordering::Equal));
+                q
+            })
+            .collect();
+        out.sort_by(|a, b| a.partial_cmp(b).unwrap_or(std::cmp::Ordering::Equal));
+        out
+    }
+
+    /// the two lists are the same multiset of triangles up to `eps` per coordinate
+    pub(super) fn same_triangles(a: &[[(f32, f32); 3]], b: &[[(f32, f32); 3]], eps: f32) -> bool {
+        if a.len() != b.len() {
+            return false;
+        }
+        let close = |x: &[(f32, f32); 3], y: &[(f32, f32); 3]| (0..3).all(|k| (x[k].0 - y[k].0).abs() <= eps && (x[k].1 - y[k].1).abs() <= eps);
+        if a.iter().zip(b.iter()).all(|(x, y)| close(x, y)) {
+            return true;
+        }
+        // sorted order can differ between lists that differ by rounding: match greedily
+        let mut used = vec![false; b.len()];
+        'outer: for x in a {
+            // the corners of a triangle sorted lexicographically can also swap under rounding: try the permutations
+            for (k, y) in b.iter().enumerate() {
+                if used[k] {
+                    continue;
+                }
+                let perms = [[0, 1, 2], [0, 2, 1], [1, 0, 2], [1, 2, 0], [2, 0, 1], [2, 1, 0]];
+                if perms.iter().any(|pm| (0..3).all(|i| (x[i].0 - y[pm[i]].0).abs() <= eps && (x[i].1 - y[pm[i]].1).abs() <= eps)) {
+                    used[k] = true;
+                    continue 'outer;
+                }
+            }
+            return false;
+        }
+        true
+    }
+}
+
+use lyon_path::Winding;
+use shapes::{CornerMode, Grid, Ideal, Outline, Route, ShapeK, P2};
+
+/// the caps lyon documents for a sub-path without extent (`tessellate_empty_cap`): nothing for butt caps, the
+/// square of side `width` for square caps, the disc of that diameter for round caps
+fn empty_cap_ideal(c: P2, cap: LineCap, hw: f64, tol: f64) -> Ideal {
+    match cap {
+        LineCap::Butt => Ideal::Nothing,
+        LineCap::Square => Ideal::Square { c, hw, delta: 1e-3 },
+        LineCap::Round => Ideal::Disc { c, hw, delta: tol + 1e-3 },
+    }
+}
+
+/// The region a stroke of the shape should cover, computed from the shape's own parameters (None: not
+/// specified here).  `rect_helper`: the shape goes through StrokeBuilder::add_rectangle with a fixed width, which
+/// handles rectangles thinner than the line width on its own (lyon documents an approximation made for them:
+/// the corners are then left open); through the general stroker such rectangles (and rounded ones) are strokes
+/// that overlap themselves all along and no region is specified for them here.
+/// `first_cap` / `last_cap`: the caps at the first / last point issued.
+fn ideal_region(s: &ShapeK, cfg: &StrokeCfg, hw: f64, rect_helper: bool, first_cap: LineCap, last_cap: LineCap) -> Option<Ideal> {
+    let tol = cfg.tol as f64;
+    let d0 = tol + 1e-3;
+    let s2 = std::f64::consts::SQRT_2;
+    // the joins at right-angled corners that are stroked as such
+    let precise = match cfg.join {
+        LineJoin::Round => CornerMode::Round,
+        LineJoin::Bevel => CornerMode::Bevel,
+        LineJoin::Miter => {
+            if cfg.miter_limit as f64 >= s2 {
+                CornerMode::Superset(2.0 * hw)
+            } else {
+                CornerMode::Bevel
+            }
+        }
+        LineJoin::MiterClip => {
+            if cfg.miter_limit as f64 >= s2 {
+                CornerMode::Superset(2.0 * hw)
+            } else {
+                CornerMode::Superset(s2 * cfg.miter_limit as f64 * hw)
+            }
+        }
+    };
+    let loose = if cfg.join == LineJoin::Round { CornerMode::Round } else { CornerMode::DontCare };
+    // a smooth outline of smallest radius of curvature r, flattened within tol: the chords turn by an angle a with
+    // cos(a / 2) >= (r - tol) / r, a mitred turn reaches hw / cos(a / 2) and a bevelled one hw * cos(a / 2)
+    let smooth = |r: f64, approx: f64| -> (f64, f64, f64) {
+        if r > 2.0 * tol {
+            let x = hw * tol / (r - tol);
+            (d0 + approx + x, d0 + approx + x, 1.0)
+        } else {
+            (f64::INFINITY, d0 + approx, cfg.reach(0.0))
+        }
+    };
+    let box_outline = |b: &lyon_path::math::Box2D, q: [f64; 4]| -> (Outline, Vec<(P2, P2)>) {
+        let (x0, y0, x1, y1) = (b.min.x as f64, b.min.y as f64, b.max.x as f64, b.max.y as f64);
+        let (tl, tr, bl, br) = (q[0], q[1], q[2], q[3]);
+        let pi = std::f64::consts::PI;
+        let mut o = Outline::default();
+        o.segs.push(((x0 + tl, y0), (x1 - tr, y0)));
+        o.segs.push(((x1, y0 + tr), (x1, y1 - br)));
+        o.segs.push(((x1 - br, y1), (x0 + bl, y1)));
+        o.segs.push(((x0, y1 - bl), (x0, y0 + tl)));
+        let mut corners = Vec::new();
+        for (r, c, sg, a0) in [
+            (tl, (x0, y0), (-1.0, -1.0), pi),
+            (tr, (x1, y0), (1.0, -1.0), 1.5 * pi),
+            (br, (x1, y1), (1.0, 1.0), 0.0),
+            (bl, (x0, y1), (-1.0, 1.0), 0.5 * pi),
+        ] {
+            if r > 0.0 {
+                o.arcs.push(((c.0 - sg.0 * r, c.1 - sg.1 * r), r, a0, a0 + 0.5 * pi));
+            } else {
+                corners.push((c, sg));
+            }
+        }
+        (o, corners)
+    };
+    match s {
+        ShapeK::PointOpen(_) => Some(Ideal::Nothing),
+        ShapeK::Rect(b) => {
+            let (w, h) = (b.width() as f64, b.height() as f64);
+            if w == 0.0 && h == 0.0 {
+                if rect_helper {
+                    // the helper's approximation of a rectangle without extent: only that nothing lies beyond a square cap
+                    let mut o = Outline::default();
+                    o.segs.push((shapes::pf(b.min), shapes::pf(b.min)));
+                    return Some(Ideal::Stroke { outline: o, hw, d_in: f64::INFINITY, d_out: d0, k: s2, corners: vec![], mode: CornerMode::Round });
+                }
+                return Some(empty_cap_ideal(shapes::pf(b.min), first_cap, hw, tol));
+            }
+            let thin = w.min(h) < 2.0 * hw;
+            if thin && !rect_helper {
+                return None;
+            }
+            let (o, corners) = box_outline(b, [0.0; 4]);
+            let mode = if thin { loose } else { precise };
+            // the documented approximation of a thin rectangle with round joins: one half disc in place of the two quarter
+            // discs whose centres are the short side apart; the two outlines are at most (1/sqrt 2 - 1/2) short sides apart
+            let d = if thin && cfg.join == LineJoin::Round { d0 + (1.0 / s2 - 0.5) * w.min(h) } else { d0 };
+            Some(Ideal::Stroke { outline: o, hw, d_in: d, d_out: d, k: 1.0, corners, mode })
+        }
+        ShapeK::RoundRect(b, q) => {
+            let (w, h) = (b.width() as f64, b.height() as f64);
+            if w == 0.0 && h == 0.0 {
+                return Some(empty_cap_ideal(shapes::pf(b.min), first_cap, hw, tol));
+            }
+            if w == 0.0 || h == 0.0 {
+                // a segment run through twice: only the sides are specified
+                let e = cfg.reach(0.0) * hw;
+                return Some(Ideal::Seg { a: shapes::pf(b.min), b: shapes::pf(b.max), hw, inner: (0.0, 0.0, false, false), outer: (e, e, false, false), delta: d0 });
+            }
+            if w.min(h) < 2.0 * hw {
+                return None;
+            }
+            // radii that do not fit are clamped: the generator only asks for radii that fit, or one radius for all corners
+            let lim = 0.5 * w.min(h);
+            let q = [q[0] as f64, q[1] as f64, q[2] as f64, q[3] as f64].map(|r| r.min(lim));
+            let (o, corners) = box_outline(b, q);
+            let rmax = q.iter().cloned().fold(0.0, f64::max);
+            let rmin = q.iter().cloned().filter(|r| *r > 0.0).fold(f64::INFINITY, f64::min);
+            if rmax == 0.0 {
+                return Some(Ideal::Stroke { outline: o, hw, d_in: d0, d_out: d0, k: 1.0, corners, mode: precise });
+            }
+            let (d_in, d_out, k) = smooth(rmin, 3e-4 * rmax);
+            let mode = if d_in.is_finite() { precise } else { loose };
+            Some(Ideal::Stroke { outline: o, hw, d_in, d_out, k, corners, mode })
+        }
+        ShapeK::Circle(c, r) => {
+            let r = r.abs() as f64;
+            if r == 0.0 {
+                return Some(empty_cap_ideal(shapes::pf(*c), first_cap, hw, tol));
+            }
+            let mut o = Outline::default();
+            o.arcs.push((shapes::pf(*c), r, 0.0, 2.0 * std::f64::consts::PI));
+            // the four cubics of add_circle stay within 0.02 % of the radius of the circle
+            let (d_in, d_out, k) = smooth(r, 3e-4 * r);
+            Some(Ideal::Stroke { outline: o, hw, d_in, d_out, k, corners: vec![], mode: CornerMode::Round })
+        }
+        ShapeK::Ellipse(c, rx, ry, rot) => {
+            let (rx, ry, rot) = (rx.abs() as f64, ry.abs() as f64, *rot as f64);
+            let c = shapes::pf(*c);
+            if rx == 0.0 && ry == 0.0 {
+                return Some(empty_cap_ideal(c, first_cap, hw, tol));
+            }
+            let at = |t: f64| -> P2 {
+                let (x, y) = (rx * t.cos(), ry * t.sin());
+                (c.0 + x * rot.cos() - y * rot.sin(), c.1 + x * rot.sin() + y * rot.cos())
+            };
+            // the eight quadratics of add_ellipse bulge out of the ellipse by up to 0.31 % of the larger radius (K15)
+            let approx = 3.2e-3 * rx.max(ry);
+            if rx == 0.0 || ry == 0.0 {
+                // a segment run through twice: only the sides are specified
+                let (a, b) = if rx == 0.0 { (at(0.5 * std::f64::consts::PI), at(1.5 * std::f64::consts::PI)) } else { (at(0.0), at(std::f64::consts::PI)) };
+                let e = cfg.reach(0.0) * hw;
+                return Some(Ideal::Seg { a, b, hw, inner: (0.0, 0.0, false, false), outer: (e, e, false, false), delta: d0 + approx });
+            }
+            let n = 720;
+            let mut o = Outline::default();
+            for i in 0..n {
+                let tau = 2.0 * std::f64::consts::PI;
+                o.segs.push((at(tau * i as f64 / n as f64), at(tau * (i + 1) as f64 / n as f64)));
+            }
+            let rmin = rx.min(ry).powi(2) / rx.max(ry);
+            let (d_in, d_out, k) = smooth(rmin, approx);
+            Some(Ideal::Stroke { outline: o, hw, d_in, d_out, k, corners: vec![], mode: CornerMode::Round })
+        }
+        // general polygons: the stroker's handling of sharp turns and overlaps is not the helper's business
+        ShapeK::Polygon(..) => None,
+        ShapeK::Segment(p, q) => {
+            if p == q {
+                return Some(empty_cap_ideal(shapes::pf(*p), first_cap, hw, tol));
+            }
+            let ext = |c: LineCap| if c == LineCap::Square { hw } else { 0.0 };
+            let e = (ext(first_cap), ext(last_cap), first_cap == LineCap::Round, last_cap == LineCap::Round);
+            Some(Ideal::Seg { a: shapes::pf(*p), b: shapes::pf(*q), hw, inner: e, outer: e, delta: d0 })
+        }
+        ShapeK::PairClosed(p, q) => {
+            if p == q {
+                return Some(empty_cap_ideal(shapes::pf(*p), first_cap, hw, tol));
+            }
+            // there and back: the sides are specified, the two ends (half turns) are not
+            Some(Ideal::Seg { a: shapes::pf(*p), b: shapes::pf(*q), hw, inner: (0.0, 0.0, false, false), outer: (hw, hw, false, false), delta: d0 })
+        }
+    }
+}
+
+/// the grid over the bounding box of the ideal region grown by the width; the points the triangles should and
+/// should not cover.  Returns (points decided, wrongly uncovered, wrongly covered, first offender).
+fn region_check(ideal: &Ideal, width: f64, rec: &StrokeRec) -> (usize, usize, usize, Option<(P2, bool)>, Vec<Option<bool>>) {
+    let n = 48;
+    let (lo, hi) = match ideal.bounds() {
+        Some(b) => b,
+        None => {
+            // nothing may be covered at all
+            let any = rec.tris.iter().any(|t| {
+                if t.iter().any(|i| *i as usize >= rec.verts.len()) {
+                    return false;
+                }
+                let q: Vec<P2> = t.iter().map(|i| shapes::pf(rec.verts[*i as usize].pos)).collect();
+                ((q[1].0 - q[0].0) * (q[2].1 - q[0].1) - (q[1].1 - q[0].1) * (q[2].0 - q[0].0)).abs() > 1e-9
+            });
+            return (1, 0, any as usize, if any { Some(((0.0, 0.0), false)) } else { None }, vec![]);
+        }
+    };
+    let g = width.max(0.25) + 0.05;
+    let mut grid = Grid::new((lo.0 - g, lo.1 - g), (hi.0 + g, hi.1 + g), n);
+    grid.raster(rec);
+    let (mut decided, mut missing, mut extra, mut first) = (0, 0, 0, None);
+    let mut cover = Vec::with_capacity(n * n);
+    for i in 0..n {
+        for j in 0..n {
+            let p = grid.point(i, j);
+            let c = grid.covered[i * n + j];
+            match ideal.classify(p) {
+                None => cover.push(None),
+                Some(want) => {
+                    decided += 1;
+                    cover.push(Some(c));
+                    if want != c {
+                        if want {
+                            missing += 1;
+                        } else {
+                            extra += 1;
+                        }
+                        if first.is_none() {
+                            first = Some((p, want));
+                        }
+                    }
+                }
+            }
+        }
+    }
+    (decided, missing, extra, first, cover)
+}
+
+fn random_shape(r: &mut Rng) -> ShapeK {
+    use lyon_path::math::Box2D;
+    let lat = |r: &mut Rng| r.range(-16, 17) as f32 * 0.5;
+    let size = |r: &mut Rng| -> f32 {
+        match r.below(8) {
+            0 => 0.0,
+            1 => *r.pick(&[1.0f32 / 64.0, 1.0 / 16.0]),
+            _ => r.range(2, 81) as f32 * 0.25,
+        }
+    };
+    let c = point(lat(r), lat(r));
+    match r.below(16) {
+        0..=4 => {
+            let (w, h) = (size(r), size(r));
+            ShapeK::Rect(Box2D { min: c, max: point(c.x + w, c.y + h) })
+        }
+        5 | 6 => ShapeK::Circle(c, size(r)),
+        7 | 8 => {
+            let rot = if r.chance(1, 3) { 0.0 } else { r.range(0, 16) as f32 * std::f32::consts::PI / 8.0 };
+            let rx = size(r);
+            // keep the two radii within a factor of four of each other, or one of them zero / tiny
+            let ry = if r.chance(1, 4) { size(r) } else { (rx * *r.pick(&[0.25f32, 0.5, 1.0, 2.0, 4.0])).min(20.0) };
+            ShapeK::Ellipse(c, rx, ry, rot)
+        }
+        9..=11 => {
+            let (w, h) = (size(r), size(r));
+            let lim = 0.5 * w.min(h);
+            let q: [f32; 4] = if r.chance(1, 2) {
+                // one radius for all corners, possibly larger than fits
+                let q = *r.pick(&[0.0f32, 1.0 / 16.0, 0.5, 1.0, 2.5, 30.0]);
+                [q; 4]
+            } else {
+                let mut q = [0.0f32; 4];
+                for x in q.iter_mut() {
+                    *x = *r.pick(&[0.0f32, 0.25, 0.5, 1.0]) * lim;
+                }
+                q
+            };
+            ShapeK::RoundRect(Box2D { min: c, max: point(c.x + w, c.y + h) }, q)
+        }
+        12 => {
+            let n = 1 + r.below(5) as usize;
+            let pts: Vec<Point> = (0..n).map(|_| point(c.x + r.range(0, 9) as f32, c.y + r.range(0, 9) as f32)).collect();
+            ShapeK::Polygon(pts, r.chance(2, 3))
+        }
+        13 => {
+            let d = if r.chance(1, 5) { lyon_path::math::vector(0.0, 0.0) } else { lyon_path::math::vector(r.range(-8, 9) as f32, r.range(-8, 9) as f32) };
+            ShapeK::Segment(c, c + d)
+        }
+        14 => ShapeK::PointOpen(c),
+        _ => {
+            let d = if r.chance(1, 5) { lyon_path::math::vector(0.0, 0.0) } else { lyon_path::math::vector(r.range(-8, 9) as f32, r.range(-8, 9) as f32) };
+            ShapeK::PairClosed(c, c + d)
+        }
+    }
+}
+
+/// the smallest positive length in the shape (None: a shape without extent)
+fn smallest_feature(s: &ShapeK) -> Option<f32> {
+    let pos = |v: &[f32]| -> Option<f32> { v.iter().cloned().filter(|x| *x > 0.0).fold(None, |m: Option<f32>, x| Some(m.map_or(x, |y| y.min(x)))) };
+    match s {
+        ShapeK::Rect(b) => pos(&[b.width(), b.height()]),
+        ShapeK::RoundRect(b, q) => {
+            let lim = 0.5 * b.width().min(b.height());
+            pos(&[b.width(), b.height(), q[0].min(lim), q[1].min(lim), q[2].min(lim), q[3].min(lim)])
+        }
+        ShapeK::Circle(_, r) => pos(&[*r]),
+        ShapeK::Ellipse(_, rx, ry, _) => {
+            if *rx > 0.0 && *ry > 0.0 {
+                Some(rx.min(*ry).powi(2) / rx.max(*ry))
+            } else {
+                pos(&[*rx, *ry])
+            }
+        }
+        ShapeK::Polygon(pts, _) => pos(&(0..pts.len()).map(|i| (pts[(i + 1) % pts.len()] - pts[i]).length()).collect::<Vec<f32>>()),
+        ShapeK::Segment(p, q) | ShapeK::PairClosed(p, q) => pos(&[(*q - *p).length()]),
+        ShapeK::PointOpen(_) => None,
+    }
+}
+
+fn shape_extent(s: &ShapeK) -> f32 {
+    match s {
+        ShapeK::Rect(b) | ShapeK::RoundRect(b, _) => b.width().max(b.height()),
+        ShapeK::Circle(_, r) => 2.0 * r,
+        ShapeK::Ellipse(_, rx, ry, _) => 2.0 * rx.max(*ry),
+        ShapeK::Polygon(..) => 8.0,
+        ShapeK::Segment(p, q) | ShapeK::PairClosed(p, q) => (*q - *p).length(),
+        ShapeK::PointOpen(_) => 0.0,
+    }
+}
+
+/// Failures of the shape / empty-cap checks: the first 25 of a kind are listed, the rest only counted, so that one
+/// defect met by hundreds of inputs does not crowd the other kinds out of the report.
+fn fail_listed(st: &mut Stats, json_obj: String) {
+    let what: String = json_obj.split("\"input\"").next().unwrap_or("").to_string();
+    // C05 states what every vertex and triangle of a stroke must satisfy, C06 what a stroke of LONG segments with gentle
+    // turns must cover.  The regions covered by the strokes of rectangles thinner than the line and of shapes without
+    // width or height (a segment run through twice: an exact half turn) are covered by neither statement: what the
+    // region comparison sees there is recorded as an observation (DESIGN.md 10.10), not raised
+    const OUTSIDE: [&str; 2] = ["the stroke of a rectangle thinner than the line width", "the stroke of a rounded rectangle / ellipse without width or height"];
+    if OUTSIDE.iter().any(|p| what.contains(p)) {
+        let short: String = what.chars().filter(|c| *c != '"' && *c != '{' && *c != ',').take(150).collect();
+        st.inc(&format!("observed outside the properties' statements: {}", short.trim()));
+        return;
+    }
+    let key = format!("shape_failures_of_kind_{:016x}", fnv(&what));
+    st.inc(&key);
+    if *st.counters.get(&key).unwrap_or(&0) <= 25 {
+        st.fail(json_obj);
+    } else {
+        st.inc("shape_failures_counted_not_listed");
+        st.inc("direct_failures_unclassified");
+        st.inc("direct_failures");
+    }
+}
+
+/// `check_stroke_mesh` on one run, reporting one failure per kind (a shape has many vertices of the same making)
+fn check_run(st: &mut Stats, cfg: &StrokeCfg, spec: &PathSpec, tables: &Tables, width_attr: usize, rec: &StrokeRec, label: &str) -> usize {
+    let mut tmp = Stats::default();
+    check_stroke_mesh(&mut tmp, cfg, spec, tables, 0.0, width_attr, rec, label);
+    forward_failures(st, &tmp)
+}
+
+fn forward_failures(st: &mut Stats, tmp: &Stats) -> usize {
+    let mut seen: Vec<String> = Vec::new();
+    for f in &tmp.failures {
+        let what: String = f.split("\"input\"").next().unwrap_or("").to_string();
+        if !seen.contains(&what) {
+            seen.push(what);
+            fail_listed(st, f.clone());
+        }
+    }
+    tmp.failures.len()
+}
+
+/// What the vertices of a rectangle thinner than the line width may describe instead of the rectangle's outline:
+/// the stroke builder documents that it approximates such a rectangle.  The one segment whose stroke with square
+/// caps has the outline of the rectangle's stroke is the rectangle's medial segment (the long axis, shortened by
+/// half the short side at both ends) drawn with the line width plus the short side.
+fn thin_rect_substitute(b: &lyon_path::math::Box2D, cfg: &StrokeCfg) -> (PathSpec, StrokeCfg) {
+    let (w, h) = (b.width(), b.height());
+    let d = 0.5 * w.min(h);
+    let (from, to) = if w > h {
+        let y = 0.5 * (b.min.y + b.max.y);
+        (point(b.min.x + d, y), point(b.max.x - d, y))
+    } else {
+        let x = 0.5 * (b.min.x + b.max.x);
+        (point(x, b.min.y + d), point(x, b.max.y - d))
+    };
+    let mut c = cfg.clone();
+    c.width = cfg.width + 2.0 * d;
+    (PathSpec::from_polylines(&[vec![(from.x, from.y), (to.x, to.y)]], &[false]), c)
+}
+
+/// The shape helpers of the stroke builder against the same helpers on a Path builder, against the
+/// shape-level entry points of the tessellator, and against the region the shape's stroke should cover.
+pub(crate) fn shape_helper_checks(args: &Args, st: &mut Stats) {
+    let mut rng = Rng::new(args.seed ^ 0x0505_5a5a);
+    let n = if args.thorough() { 4000 } else { 400 };
+    for it in 0..n {
+        let s = random_shape(&mut rng);
+        let extent = shape_extent(&s);
+        let mut cfg = random_cfg(&mut rng, false);
+        cfg.width = if rng.chance(1, 4) { ((extent * 1.5 + 1.0) * 4.0).round() / 4.0 } else { *rng.pick(&[0.5f32, 1.0, 1.5, 2.0, 3.0, 4.0]) };
+        cfg.tol = *rng.pick(&[0.01f32, 0.05, 0.1, 0.25]);
+        let n_attr = *rng.pick(&[0usize, 0, 1, 2]);
+        let mut var_idx: Option<usize> = if n_attr > 0 && rng.chance(1, 2) { Some(rng.below(n_attr as u64) as usize) } else { None };
+        // every endpoint of a shape carries the same attributes: the width is the same all along, and with variable
+        // width the stroke stays narrower than the shape's smallest feature (side, radius of curvature, length): the
+        // variable-width joins of pieces that are short against the width are the domain of K12 / K13
+        let factor = *rng.pick(&[0.5f32, 1.0, 1.5, 2.0]);
+        if var_idx.is_some() {
+            if let Some(f) = smallest_feature(&s) {
+                if cfg.width * factor * 0.5 > f {
+                    // a narrower line if there is one, else fixed width
+                    match [4.0f32, 2.0, 1.0, 0.5].iter().find(|w| *w * factor * 0.5 <= f) {
+                        Some(w) => cfg.width = *w,
+                        None => var_idx = None,
+                    }
+                }
+            }
+        }
+        let attrs: Vec<f32> = (0..n_attr).map(|k| if Some(k) == var_idx { factor } else { rng.range(-20, 20) as f32 }).collect();
+        cfg.var_width = var_idx.is_some();
+        let mut o = cfg.options();
+        o.variable_line_width = var_idx;
+        let eff_w = if cfg.var_width { cfg.width * factor } else { cfg.width };
+        let hw = eff_w as f64 * 0.5;
+        let label0 = format!("{} {:?} {:?} attrs {:?} width attribute {:?}", s.name(), s, cfg, attrs, var_idx);
+        st.inc("shape_cases");
+        st.inc(&format!("shape_{}", s.name()));
+        st.inc(&format!("shape_join_{:?}", cfg.join));
+        st.inc(if cfg.var_width { "shape_variable_width" } else { "shape_fixed_width" });
+        st.note_case(&label0, extent > 0.0);
+        if it % 16 == 0 {
+            breadcrumb(&args.out, &format!("shape helpers, one of the 16 inputs starting at: {}", label0));
+        }
+        let thin_rect = match &s {
+            ShapeK::Rect(b) => !cfg.var_width && b.width().min(b.height()) < cfg.width,
+            _ => false,
+        };
+        if thin_rect {
+            st.inc("shape_rect_thinner_than_width");
+        }
+        let rect_fixed = matches!(s, ShapeK::Rect(..)) && !cfg.var_width;
+        let mut routes = vec![Route::BuilderAttr, Route::WithIds];
+        if n_attr == 0 {
+            routes.push(Route::Builder);
+            routes.push(Route::Tessellate);
+            if matches!(s, ShapeK::Rect(..) | ShapeK::Circle(..) | ShapeK::Ellipse(..)) {
+                routes.push(Route::Direct);
+            }
+        }
+        let mut covers: Vec<Vec<Option<bool>>> = Vec::new();
+        let mut region_failed = false;
+        for w in [Winding::Positive, Winding::Negative] {
+            let wl = format!("{:?} {}", w, label0);
+            // the commands the helper stands for
+            let mut sr = shapes::SpecRec::new(n_attr);
+            shapes::apply_attr(&mut sr, &s, w, &attrs);
+            let spec = sr.spec();
+            let seq_tables = tables_sequential(&spec);
+            let reversed = w == Winding::Negative && matches!(s, ShapeK::Segment(..) | ShapeK::PairClosed(..));
+            let (first_cap, last_cap) = (cfg.start_cap, cfg.end_cap);
+            let ideal_for = |helper: bool| -> Option<Ideal> {
+                // the ideal of a segment is written from its first point
+                let s2 = match (&s, reversed) {
+                    (ShapeK::Segment(p, q), true) => ShapeK::Segment(*q, *p),
+                    (ShapeK::PairClosed(p, q), true) => ShapeK::PairClosed(*q, *p),
+                    _ => s.clone(),
+                };
+                ideal_region(&s2, &cfg, hw, helper && rect_fixed, first_cap, last_cap)
+            };
+            // reference: the helper on a Path builder, then tessellate_path
+            let reference = match shapes::run_shape(Route::TessellatePath, &s, w, n_attr, &attrs, &o) {
+                None => {
+                    fail_listed(st, jobj(&[("what", jstr("stroking a shape built on a Path builder panicked")), ("input", jstr(&wl))]));
+                    continue;
+                }
+                Some(r) => r,
+            };
+            if !reference.ok {
+                fail_listed(st, jobj(&[("what", jstr("stroking a shape built on a Path builder returned an error")), ("input", jstr(&wl))]));
+                continue;
+            }
+            st.inc("shape_runs");
+            st.add("shape_vertices", reference.rec.verts.len() as u64);
+            st.add("shape_triangles", reference.rec.tris.len() as u64);
+            let path_tables = reference.path.as_ref().map(tables_from_path).unwrap_or_default();
+            let rl = format!("Path + tessellate_path :: {}", wl);
+            check_run(st, &cfg, &spec, if n_attr > 0 { &path_tables } else { &seq_tables }, var_idx.unwrap_or(0), &reference.rec, &rl);
+            let ref_tris = shapes::tri_positions(&reference.rec);
+            if let Some(ideal) = ideal_for(false) {
+                let (decided, missing, extra, first, cover) = region_check(&ideal, eff_w as f64, &reference.rec);
+                st.inc("shape_region_checks");
+                st.add("shape_region_points_decided", decided as u64);
+                if missing + extra > 0 {
+                    region_failed = true;
+                    if std::env::var("LVH_SHAPE_DEBUG").is_ok() {
+                        eprintln!("---- missing {} extra {} of {} first {:?} :: {}", missing, extra, decided, first, rl);
+                    }
+                    let (p, want) = first.unwrap();
+                    let flat = match &s {
+                        ShapeK::RoundRect(b, _) => (b.width() == 0.0) != (b.height() == 0.0),
+                        ShapeK::Ellipse(_, rx, ry, _) => (*rx == 0.0) != (*ry == 0.0),
+                        _ => false,
+                    };
+                    fail_listed(st, jobj(&[
+                        ("what", jstr(if flat {
+                            "the stroke of a rounded rectangle / ellipse without width or height (a segment run through twice) leaves part of the band of half the width around the segment uncovered, or covers points beyond the reach of its ends"
+                        } else {
+                            "the stroke of a shape (Path builder helper, tessellate_path) does not cover the points within half the width of the shape's outline and only those"
+                        })),
+                        ("input", jstr(&format!("{} of {} grid points not covered though within, {} covered though beyond; first ({:.4}, {:.4}) should be {} :: {}", missing, decided, extra, p.0, p.1, if want { "covered" } else { "free" }, rl))),
+                    ]));
+                }
+                covers.push(cover);
+            }
+            for route in &routes {
+                if *route == Route::Direct && w == Winding::Negative && !matches!(s, ShapeK::Ellipse(..)) {
+                    continue;
+                }
+                let rl = format!("{:?} :: {}", route, wl);
+                let run = match shapes::run_shape(*route, &s, w, n_attr, &attrs, &o) {
+                    None => {
+                        fail_listed(st, jobj(&[("what", jstr("stroking a shape panicked")), ("input", jstr(&rl))]));
+                        continue;
+                    }
+                    Some(r) => r,
+                };
+                if !run.ok {
+                    fail_listed(st, jobj(&[("what", jstr("stroking a finite shape with valid options returned an error")), ("input", jstr(&rl))]));
+                    continue;
+                }
+                st.inc("shape_runs");
+                st.inc(&format!("shape_route_{:?}", route));
+                let helper = matches!(route, Route::Builder | Route::BuilderAttr | Route::Direct);
+                let tables = if *route == Route::WithIds { &path_tables } else { &seq_tables };
+                match (&s, helper && thin_rect) {
+                    (ShapeK::Rect(b), true) => {
+                        // either the rectangle's outline with the width asked for, or its medial segment with the width that
+                        // gives the same outer boundary
+                        let mut as_rect = Stats::default();
+                        check_stroke_mesh(&mut as_rect, &cfg, &spec, tables, 0.0, 0, &run.rec, &rl);
+                        if !as_rect.failures.is_empty() {
+                            let (spec2, cfg2) = thin_rect_substitute(b, &cfg);
+                            let mut as_segment = Stats::default();
+                            check_stroke_mesh(&mut as_segment, &cfg2, &spec2, &tables_sequential(&spec2), 0.0, 0, &run.rec, &format!("as the medial segment with width {} :: {}", cfg2.width, rl));
+                            st.inc("shape_thin_rect_as_segment");
+                            if !as_segment.failures.is_empty() {
+                                forward_failures(st, if as_segment.failures.len() <= as_rect.failures.len() { &as_segment } else { &as_rect });
+                            }
+                        } else {
+                            st.inc("shape_thin_rect_as_rectangle");
+                        }
+                    }
+                    _ => {
+                        check_run(st, &cfg, &spec, tables, var_idx.unwrap_or(0), &run.rec, &rl);
+                    }
+                }
+                let tris = shapes::tri_positions(&run.rec);
+                let same = shapes::same_triangles(&tris, &ref_tris, 1e-4);
+                if helper && thin_rect {
+                    // StrokeBuilder::add_rectangle documents a different tessellation there: same region instead
+                    st.inc(if same { "shape_thin_rect_same_triangles" } else { "shape_thin_rect_other_triangles" });
+                    if let Some(ideal) = ideal_for(true) {
+                        let (decided, missing, extra, first, _) = region_check(&ideal, eff_w as f64, &run.rec);
+                        st.inc("shape_region_checks");
+                        st.add("shape_region_points_decided", decided as u64);
+                        if missing + extra > 0 {
+                            if std::env::var("LVH_SHAPE_DEBUG").is_ok() {
+                                eprintln!("==== missing {} extra {} of {} first {:?} :: {}", missing, extra, decided, first, rl);
+                            }
+                            let (p, want) = first.unwrap();
+                            fail_listed(st, jobj(&[
+                                ("what", jstr("the stroke of a rectangle thinner than the line width (stroke builder helper) does not cover the points within half the width of the rectangle's outline and only those")),
+                                ("input", jstr(&format!("{} of {} grid points not covered though within, {} covered though beyond; first ({:.4}, {:.4}) should be {} :: {}", missing, decided, extra, p.0, p.1, if want { "covered" } else { "free" }, rl))),
+                            ]));
+                        }
+                    }
+                } else {
+                    st.inc("shape_triangle_comparisons");
+                    if !same {
+                        fail_listed(st, jobj(&[
+                            ("what", jstr("a shape helper of the stroke builder / tessellator and the same helper on a Path builder followed by tessellate_path give different triangles")),
+                            ("input", jstr(&format!("{} triangles against {} :: {}", tris.len(), ref_tris.len(), rl))),
+                        ]));
+                    }
+                }
+            }
+        }
+        // both windings cover the same region (where the region is specified)
+        let open = matches!(s, ShapeK::Segment(..) | ShapeK::PairClosed(..));
+        if covers.len() == 2 && !region_failed && (!open || cfg.start_cap == cfg.end_cap) {
+            st.inc("shape_winding_comparisons");
+            let differ = covers[0].iter().zip(covers[1].iter()).filter(|(a, b)| a.is_some() && b.is_some() && a != b).count();
+            if differ > 0 {
+                fail_listed(st, jobj(&[("what", jstr("the two windings of a shape do not cover the same region")), ("input", jstr(&format!("{} grid points :: {}", differ, label0)))]));
+            }
+        }
+        if it % 40 == 0 {
+            st.sample(label0);
+        }
+    }
+}
+
+/// Sub-paths without extent (a single point that is closed, a point followed by segments that stay on it),
+/// alone or between other sub-paths, through every entry point, fixed and variable width: what lyon documents
+/// in `tessellate_empty_cap` - nothing for butt caps, the square of side `width` centred on the point for
+/// square caps, a disc of that diameter (within the tolerance) for round caps; an open sub-path of one point
+/// yields nothing.
+pub(crate) fn empty_cap_checks(args: &Args, st: &mut Stats) {
+    let mut rng = Rng::new(args.seed ^ 0x0505_ca95);
+    let n = if args.thorough() { 2000 } else { 250 };
+    for it in 0..n {
+        let p = point(rng.range(-16, 17) as f32 * 0.5, rng.range(-16, 17) as f32 * 0.5);
+        let variant = rng.below(7);
+        let n_attr = *rng.pick(&[0usize, 0, 1, 2]);
+        let mut cfg = random_cfg(&mut rng, n_attr > 0);
+        cfg.width = *rng.pick(&[0.5f32, 1.0, 1.5, 2.0, 3.0, 4.0, 12.0]);
+        cfg.tol = *rng.pick(&[0.01f32, 0.05, 0.1, 0.25]);
+        cfg.end_cap = cfg.start_cap;
+        let factor = *rng.pick(&[0.5f32, 1.0, 1.5, 2.0]);
+        let at = |f: f32, r: &mut Rng| -> Vec<f32> { (0..n_attr).map(|k| if k == 0 { f } else { r.range(-20, 20) as f32 }).collect() };
+        let a = at(factor, &mut rng);
+        let target = Sub {
+            start: p,
+            start_attrs: a.clone(),
+            segs: match variant {
+                0 | 4 => vec![],
+                1 | 2 => vec![Seg::Line(p, a.clone())],
+                3 => vec![Seg::Line(p, a.clone()), Seg::Line(p, a.clone()), Seg::Line(p, a.clone())],
+                5 => vec![Seg::Quad(p, p, a.clone())],
+                _ => vec![Seg::Cubic(p, p, p, a.clone())],
+            },
+            close: matches!(variant, 0 | 2 | 3 | 5),
+        };
+        // other sub-paths before / after, 40 units away, with their own width
+        let other = |dx: f32, r: &mut Rng| -> Sub {
+            let f = *r.pick(&[0.5f32, 1.0, 2.0]);
+            let q = point(p.x + dx, p.y);
+            match r.below(3) {
+                0 => Sub { start: q, start_attrs: at(f, r), segs: vec![Seg::Line(point(q.x + 5.0, q.y + 3.0), at(f, r))], close: false },
+                1 => Sub { start: q, start_attrs: at(f, r), segs: vec![Seg::Line(point(q.x + 5.0, q.y), at(f, r)), Seg::Line(point(q.x + 5.0, q.y + 5.0), at(f, r))], close: true },
+                _ => Sub { start: q, start_attrs: at(f, r), segs: vec![], close: true },
+            }
+        };
+        let mut subs = Vec::new();
+        if rng.chance(1, 2) {
+            subs.push(other(40.0, &mut rng));
+        }
+        subs.push(target);
+        if rng.chance(1, 2) {
+            subs.push(other(-40.0, &mut rng));
+        }
+        let spec = PathSpec { n_attr, subs };
+        let mut entry = *rng.pick(&FILL_ENTRIES);
+        if n_attr > 0 && matches!(entry, Entry::Tessellate | Entry::Polygon | Entry::Builder) {
+            entry = *rng.pick(&[Entry::TessellatePath, Entry::WithIds, Entry::BuilderWithAttributes]);
+        }
+        let label = format!("sub-path without extent, variant {} :: {:?} {:?} :: {}", variant, entry, cfg, spec.text());
+        st.inc("empty_cap_cases");
+        st.inc(&format!("empty_cap_{:?}", cfg.start_cap));
+        st.inc(if cfg.var_width { "empty_cap_variable_width" } else { "empty_cap_fixed_width" });
+        st.note_case(&label, true);
+        if it % 16 == 0 {
+            breadcrumb(&args.out, &format!("empty caps, one of the 16 inputs starting at: {}", label));
+        }
+        let path_ids = n_attr > 0 && matches!(entry, Entry::TessellatePath | Entry::WithIds) || entry == Entry::WithIds;
+        let tables: Tables = if path_ids { tables_from_path(&spec.build()) } else { tables_sequential(&spec) };
+        let o = cfg.options();
+        let mut rec = StrokeRec::default();
+        match catch(AssertUnwindSafe(|| run_stroke(entry, &mut StrokeTessellator::new(), &spec, &o, &mut rec).is_ok())) {
+            None => {
+                fail_listed(st, jobj(&[("what", jstr("stroking panicked")), ("input", jstr(&label))]));
+                continue;
+            }
+            Some(false) => {
+                fail_listed(st, jobj(&[("what", jstr("stroking a finite path with valid options returned an error")), ("input", jstr(&label))]));
+                continue;
+            }
+            Some(true) => {}
+        }
+        check_stroke_mesh(st, &cfg, &spec, &tables, 0.0, 0, &rec, &label);
+        // the part of the output that belongs to the point
+        let mine: Vec<bool> = rec.verts.iter().map(|v| v.on_path == p).collect();
+        let mut part = StrokeRec::default();
+        part.verts = rec.verts.clone();
+        part.tris = rec.tris.iter().filter(|t| t.iter().all(|i| (*i as usize) < mine.len() && mine[*i as usize])).cloned().collect();
+        let w = if cfg.var_width { cfg.width * factor } else { cfg.width };
+        let hw = w as f64 * 0.5;
+        let c = shapes::pf(p);
+        let cap = if variant == 4 { LineCap::Butt } else { cfg.start_cap };
+        let ideal = empty_cap_ideal(c, cap, hw, cfg.tol as f64);
+        let mut explained = false;
+        let used: std::collections::BTreeSet<u32> = part.tris.iter().flatten().cloned().collect();
+        let slack = 1e-4 * hw + 1e-5 * (1.0 + c.0.abs().max(c.1.abs()));
+        match cap {
+            LineCap::Butt => {}
+            LineCap::Square => {
+                st.inc("empty_cap_squares");
+                for i in &used {
+                    let v = &rec.verts[*i as usize];
+                    let (dx, dy) = ((v.pos.x as f64 - c.0).abs(), (v.pos.y as f64 - c.1).abs());
+                    if (dx - hw).abs() > slack || (dy - hw).abs() > slack {
+                        fail_listed(st, jobj(&[("what", jstr("the square cap of a sub-path without extent has a vertex that is not a corner of the square of side width around the point")), ("input", jstr(&format!("vertex {:?} expected width {} :: {}", v, w, label)))]));
+                        break;
+                    }
+                }
+            }
+            LineCap::Round => {
+                if hw >= cfg.tol as f64 {
+                    st.inc("empty_cap_discs");
+                    let mut angles: Vec<f64> = Vec::new();
+                    let mut off = false;
+                    for i in &used {
+                        let v = &rec.verts[*i as usize];
+                        let (dx, dy) = (v.pos.x as f64 - c.0, v.pos.y as f64 - c.1);
+                        if (dx.hypot(dy) - hw).abs() > slack {
+                            fail_listed(st, jobj(&[("what", jstr("the round cap of a sub-path without extent has a vertex that is not at half the width from the point")), ("input", jstr(&format!("vertex {:?} expected width {} :: {}", v, w, label)))]));
+                            off = true;
+                            break;
+                        }
+                        angles.push(dy.atan2(dx));
+                    }
+                    if !off && angles.len() >= 3 {
+                        angles.sort_by(|a, b| a.partial_cmp(b).unwrap());
+                        let mut gap = angles[0] + 2.0 * std::f64::consts::PI - angles[angles.len() - 1];
+                        for k in 1..angles.len() {
+                            gap = gap.max(angles[k] - angles[k - 1]);
+                        }
+                        // the polygon on these vertices contains the disc of radius hw * cos(gap / 2)
+                        let sagitta = hw * (1.0 - (0.5 * gap).cos());
+                        st.add("empty_cap_disc_sagitta_permille_of_tolerance_max", 0);
+                        let e = st.counters.entry("empty_cap_disc_sagitta_permille_of_tolerance_max".to_string()).or_insert(0);
+                        *e = (*e).max((1000.0 * sagitta / cfg.tol as f64) as u64);
+                        if sagitta > cfg.tol as f64 * 1.001 + slack {
+                            explained = true;
+                            fail_listed(st, jobj(&[
+                                ("what", jstr("the round cap of a sub-path without extent leaves more than the tolerance between its polygon and the disc")),
+                                ("input", jstr(&format!("{} vertices, largest angular gap {:.4} rad, sagitta {:.5} against tolerance {} :: {}", angles.len(), gap, sagitta, cfg.tol, label))),
+                            ]));
+                        }
+                    }
+                }
+            }
+        }
+        let (decided, missing, extra, first, _) = region_check(&ideal, w as f64, &part);
+        st.add("empty_cap_points_decided", decided as u64);
+        // (a round cap whose polygon is too coarse has been reported as such)
+        if missing + extra > 0 && !explained {
+            let (q, want) = first.unwrap();
+            fail_listed(st, jobj(&[
+                ("what", jstr("a sub-path without extent is not stroked as documented (nothing for butt caps or an open point, the square of side width for square caps, the disc of diameter width for round caps)")),
+                ("input", jstr(&format!("expected width {}: {} grid points not covered, {} covered in excess; first ({:.4}, {:.4}) should be {} :: {}", w, missing, extra, q.0, q.1, if want { "covered" } else { "free" }, label))),
+            ]));
+        }
+        if it % 40 == 0 {
+            st.sample(label);
+        }
+    }
 }
